@@ -3,8 +3,8 @@ NEXT Next
 CONSTANTS
   MaxM = 4
   Gaps = {1, 2}
-  NSet = {2, 3, 4, 5, 6}
-  YVals <- MCY4
+  NSet = {2, 3, 4, 5}
+  YVals <- MCY3
 INVARIANT ModelSatisfiesClauses
 INVARIANT LargerJumpSmallerWindow
 INVARIANT BorderGeometry
